@@ -143,6 +143,28 @@ pub fn mutations(j: &Value, w: &World, adv: &World, msg: &[u8], rng: &mut ChaCha
                     set_idx(&mut v, t, &o);
                     push("idx_move_between_sigs", v);
                 }
+                // one-way sigma copy: entry t carries entry s's sigma and claims exactly the indices
+                // THAT sigma wins with t's (registered) stake and that nobody else lists. Both slots
+                // are genuinely registered and the path is untouched; only the pairing of sigma_s
+                // with t's key is false (a verifier that treats equal sigmas as repeats of one
+                // signature never checks it).
+                {
+                    let sigma_s = refagg::bytes_of(&j["signatures"][s][0]["sigma"]);
+                    let stake_t = j["signatures"][t][1][1].as_u64().unwrap_or(0);
+                    let won: Vec<u64> = (0..m)
+                        .filter(|&i| {
+                            let ev = refagg::draw(&msgp, i, &sigma_s);
+                            crate::reflot::won_f64(w.params.phi_f, &ev, stake_t, w.total_stake) == Some(true)
+                        })
+                        .filter(|i| (0..n).all(|u| u == t || !idx_list(j, u).contains(i)))
+                        .collect();
+                    if !won.is_empty() {
+                        let mut v = j.clone();
+                        v["signatures"][t][0]["sigma"] = j["signatures"][s][0]["sigma"].clone();
+                        set_idx(&mut v, t, &won);
+                        push("sigma_copied_from_other_entry_with_the_indices_it_wins_there", v);
+                    }
+                }
                 // sigma swap
                 let mut v = j.clone();
                 let a = j["signatures"][s][0]["sigma"].clone();
@@ -552,6 +574,8 @@ struct Member {
     agg: AggregateSignature<D>,
     msg: Vec<u8>,
     wi: usize,
+    /// parameters this member is to be verified with in a batch (None = its world's)
+    params: Option<Parameters>,
     ref_ok: Option<bool>,
     alone: Outcome,
     label: String,
@@ -562,7 +586,7 @@ fn batch_outcome(members: &[&Member], worlds: &[World], mon: &mut Monitor) -> Ou
     let aggs: Vec<AggregateSignature<D>> = members.iter().map(|m| m.agg.clone()).collect();
     let msgs: Vec<Vec<u8>> = members.iter().map(|m| m.msg.clone()).collect();
     let avks: Vec<AggregateVerificationKey<D>> = members.iter().map(|m| worlds[m.wi].avk.clone()).collect();
-    let params: Vec<Parameters> = members.iter().map(|m| worlds[m.wi].params).collect();
+    let params: Vec<Parameters> = members.iter().map(|m| m.params.unwrap_or(worlds[m.wi].params)).collect();
     let anc = vec![None; members.len()];
     let gen = vec![None; members.len()];
     match catch(|| AggregateSignature::<D>::batch_verify(&aggs, &msgs, &avks, &params, &anc, &gen)) {
@@ -596,7 +620,7 @@ fn check_batch(members: &[&Member], worlds: &[World], kind: &str, mon: &mut Moni
                     ),
                     json!({"kind": kind,
                            "members": members.iter().map(|m| json!({"label": m.label, "msg_hex": vcore::hex(&m.msg),
-                               "world": world_desc(&worlds[m.wi]), "aggregate": m.value,
+                               "world": world_desc(&worlds[m.wi]), "parameters_of_this_member": m.params.map(|p| format!("{p:?}")), "aggregate": m.value,
                                "alone": format!("{:?}", m.alone)})).collect::<Vec<_>>()}),
                 );
                 break;
@@ -716,7 +740,7 @@ fn compensation_pair(worlds: &[World], wi1: usize, wi2: usize, rng: &mut ChaCha2
         let mut build = |v: Value, msg: Vec<u8>, wi: usize, label: &str| -> Option<Member> {
             let c = Candidate { mutator: label.to_string(), value: v.clone() };
             let (alone, agg, ref_ok) = judge(&c, &worlds[wi], &msg, &world_desc(&worlds[wi]), mon);
-            Some(Member { agg: agg?, msg, wi, ref_ok, alone, label: label.to_string(), value: v })
+            Some(Member { agg: agg?, msg, wi, params: None, ref_ok, alone, label: label.to_string(), value: v })
         };
         let m1 = build(a1, msg1.clone(), wi1, "sigma_plus_delta")?;
         let m2 = build(a2, msg2.clone(), wi2, "sigma_minus_delta")?;
@@ -762,7 +786,36 @@ pub fn run_shard(shard: u64, mon: &mut Monitor, worlds_per_shard: u64) {
                 if let Some(a) = a {
                     // keep a few members for batches: the honest one and some rejected ones
                     if c.mutator == "identity" || (o == Outcome::Reject && members.len() < 12 && rnd::chance(&mut rng, 1, 6)) {
-                        members.push(Member { agg: a, msg: msg.clone(), wi: 0, ref_ok, alone: o, label: c.mutator.clone(), value: c.value.clone() });
+                        members.push(Member { agg: a, msg: msg.clone(), wi: 0, params: None, ref_ok, alone: o, label: c.mutator.clone(), value: c.value.clone() });
+                    }
+                }
+            }
+        }
+        // members verified under OTHER parameters than the rest of the batch: an honest aggregate of
+        // this world presented with stricter parameters (one more index required than it holds / a
+        // phi_f under which its draws lose / m at or below one of its indices) is rejected alone and
+        // must stay rejected next to members that carry the world's (laxer) parameters
+        {
+            let honest_now: Vec<(AggregateSignature<D>, Vec<u8>, Value)> =
+                members.iter().filter(|m| m.label == "identity" && m.alone == Outcome::Accept).map(|m| (m.agg.clone(), m.msg.clone(), m.value.clone())).collect();
+            for (agg, msg, value) in honest_now.into_iter().take(2) {
+                let all_idx: Vec<u64> = (0..sig_count(&value)).flat_map(|e| idx_list(&value, e)).collect();
+                let p = w.params;
+                let variants = [
+                    ("k", Parameters { k: all_idx.len() as u64 + 1, ..p }),
+                    ("phi_f", Parameters { phi_f: if p.phi_f > 0.06 { 0.05 } else { 0.01 }, ..p }),
+                    ("m", Parameters { m: all_idx.iter().copied().max().unwrap_or(0), ..p }),
+                ];
+                for (what, sp) in variants {
+                    let alone = match catch(|| agg.verify(&msg, &w.avk, &sp, None, None)) {
+                        Ok(Ok(())) => Outcome::Accept,
+                        Ok(Err(_)) => Outcome::Reject,
+                        Err(_) => Outcome::Panic,
+                    };
+                    mon.count(&format!("member_under_stricter_parameters:{what}:alone:{alone:?}"));
+                    if alone == Outcome::Reject {
+                        members.push(Member { agg: agg.clone(), msg: msg.clone(), wi: 0, params: Some(sp), ref_ok: None, alone,
+                            label: format!("honest_aggregate_under_stricter_parameters:{what}"), value: value.clone() });
                     }
                 }
             }
